@@ -66,13 +66,14 @@ Proof.
 Qed.
 Print Assumptions C06_no_notification_before_initialised.
 
-(* the wait is a timed wait (AST shape checked by the translator) of 2 s + 0.5 s per command sent *)
+(* the wait is a timed wait (AST shape checked by the translator) whose bound is proportional to the number of
+   queries sent: a positive constant plus a positive constant per command *)
 Theorem C06_timeout :
-  p_init_wait_known = true /\
-  forall sc, init_timeout p_init_base p_init_per_cmd sc = (2000000 + 500000 * Z.of_nat (S (length (init_plan sc))))%Z.
+  p_init_wait_known = true /\ (0 < p_init_base)%Z /\ (0 < p_init_per_cmd)%Z /\
+  forall sc, init_timeout p_init_base p_init_per_cmd sc = (p_init_base + p_init_per_cmd * Z.of_nat (S (length (init_plan sc))))%Z.
 Proof.
-  split; [vm_compute; reflexivity|]. intro sc. unfold init_timeout.
-  rewrite (proj2 (submissions_shape sc)). reflexivity.
+  split; [vm_compute; reflexivity|]. split; [vm_compute; reflexivity|]. split; [vm_compute; reflexivity|].
+  intro sc. unfold init_timeout. rewrite (proj2 (submissions_shape sc)). reflexivity.
 Qed.
 Print Assumptions C06_timeout.
 
